@@ -67,3 +67,12 @@ Lemma handlers_match_source :
   request_handler_source = request_handler_reading /\
   response_handler_source = response_handler_reading.
 Proof. split; vm_compute; reflexivity. Qed.
+
+(* the statements that maintain Manager.sessions *)
+Lemma session_table_matches_source :
+  session_on_disconnection_source = session_on_disconnection_reading /\
+  session_on_pairing_failure_source = session_on_pairing_failure_reading /\
+  manager_on_session_end_source = manager_on_session_end_reading /\
+  manager_pair_source = manager_pair_reading /\
+  manager_on_smp_pdu_source = manager_on_smp_pdu_reading.
+Proof. repeat split; vm_compute; reflexivity. Qed.
